@@ -43,6 +43,9 @@ site: http://bugseng.com/products/ppl/ . */
 #include <sstream>
 #include <stdexcept>
 #include <algorithm>
+#ifdef BUGSENG_PPL_VERIF
+#include "verif_hooks.hh"
+#endif
 
 namespace Parma_Polyhedra_Library {
 
@@ -1879,6 +1882,9 @@ BD_Shape<T>::relation_with(const Generator& g) const {
 template <typename T>
 void
 BD_Shape<T>::shortest_path_closure_assign() const {
+#ifdef BUGSENG_PPL_VERIF
+  PPL_VERIF_REACH(BDS_CLOSURE);
+#endif
   // Do something only if necessary.
   if (marked_empty() || marked_shortest_path_closed()) {
     return;
@@ -1939,6 +1945,9 @@ BD_Shape<T>::shortest_path_closure_assign() const {
 template <typename T>
 void
 BD_Shape<T>::incremental_shortest_path_closure_assign(Variable var) const {
+#ifdef BUGSENG_PPL_VERIF
+  PPL_VERIF_REACH(BDS_INCR_CLOSURE);
+#endif
   // Do something only if necessary.
   if (marked_empty() || marked_shortest_path_closed()) {
     return;
@@ -2051,6 +2060,9 @@ BD_Shape<T>::incremental_shortest_path_closure_assign(Variable var) const {
 template <typename T>
 void
 BD_Shape<T>::shortest_path_reduction_assign() const {
+#ifdef BUGSENG_PPL_VERIF
+  PPL_VERIF_REACH(BDS_REDUCTION);
+#endif
   // Do something only if necessary.
   if (marked_shortest_path_reduced()) {
     return;
